@@ -1429,6 +1429,14 @@ class System:
         return mod
 
     def processModule(self, mod: _ModuleT) -> None:
+        parent = mod.parent
+        if isinstance(parent, Module) and parent.state is ProcessingState.UNPROCESSED and parent in self.unprocessed_modules:
+            # Like the interpreter, process a package before its modules: what the package
+            # declares (like __docformat__) must not depend on which of them is reached first.
+            self.processModule(parent)
+            if mod.state is not ProcessingState.UNPROCESSED:
+                # The package processed the module on demand.
+                return
         assert mod.state is ProcessingState.UNPROCESSED
         assert mod in self.unprocessed_modules
         mod.state = ProcessingState.PROCESSING
